@@ -23,13 +23,14 @@ PAG_LIKE = [True, False, True, True, False]
 TS = [False, False, False, True, True]
 ET_NAMES = ["directed", "bidirected", "undirected", "circle", "all"]      # index = etype code of the model
 LAYER_KEYS = {"directed": "D", "bidirected": "B", "undirected": "U", "circle": "C"}
-OP_ADD, OP_ADDS, OP_REM, OP_REMS, OP_ORIENT, OP_CTOR = range(6)
+OP_ADD, OP_ADDS, OP_REM, OP_REMS, OP_ORIENT, OP_CTOR, OP_ORIENTLAG = range(7)   # ORIENTLAG: orient(u, v) with u LATER than v
 
 RULE = ("histories of add_edge / add_edges_from (1-3 elements, also self-conflicting) / remove_edge / remove_edges_from / "
         "orient_uncertain_edge / constructor calls on the five classes; every op followed by all layers' edge sets, "
         "raised-or-not, is_valid_mec_graph, a direct check of the pair invariant on the real graph and (after a raise) "
         "snapshot equality with the pre-state. distinct by (class, op list); non-trivial = some op raised and some op "
-        "changed the graph. Plus the generated-table case: 640+640 guard cells, 4x128 orient cells, 5x64 mec cells.")
+        "changed the graph. Plus the generated-table case: 640+640 guard cells, 4x128 orient cells, 80 lagged-pair orient cells "
+        "(both argument orders w.r.t. time), 5x64 mec cells.")
 EXHAUSTIVE = {"quick": "all op sequences of length <= 2 over the 2-node alphabet (single/bulk add, remove, orient; every edge "
                        "type) for each of the 5 classes; all constructor edge-list combinations on 2 nodes; all 64 pair states x "
                        "2 directions x 5 edge types of both guards, all orient cells, on the real functions",
@@ -38,8 +39,9 @@ TRUSTED = ["/verif/translator/guards.py (Python-ast -> Gallina; its output is re
            "through the extracted model on every run)",
            "networkx Graph/DiGraph add_edge / remove_edge / has_edge taken at face value"]
 ASSUMPTIONS = ["default edge-type names (the guards compare with the literals 'directed' ...)",
-               "time-series classes: contemporaneous nodes (v, 0), default max_lag=1, stationary=True; only the lag-0 copy of "
-               "every homologous edge family is compared (lagswap=false instance of the generated orient functions)",
+               "time-series classes: default max_lag=1, stationary=True; contemporaneous nodes (v, 0) in the general streams and one "
+               "lagged pair ((x0,-1),(x1,0)) with insertions given as (earlier, later); only the named copy of every homologous "
+               "edge family is compared; which insertions the time-series layers refuse on lagged pairs is C13's subject",
                "no self loops, no attribute dicts in edge tuples, edge types restricted to the layers the class has (+ 'all')",
                "int node labels (label families are C15's job)"]
 TECHNIQUE = ("Coq proof (complete case analysis by vm_compute over all 64 pair states x 2 directions x 5 edge types x 5 classes "
@@ -47,18 +49,24 @@ TECHNIQUE = ("Coq proof (complete case analysis by vm_compute over all 64 pair s
              "over operation lists) + translator tie (T, generated tables re-compared cell by cell with the real functions) + "
              "extracted-model correspondence (K) for the glue")
 LEVEL_TEXT = ("proof. Unbounded theorems (all histories, all node counts) about the model: c03_reachable (every reachable graph "
-              "has only valid pairs and is accepted by is_valid_mec_graph), c03_raise_atomic (a raising mutation leaves every "
-              "pair as it was), c03_orient_one_mark (orient_uncertain_edge changes the one mark only, other pairs untouched), "
-              "plus the finite lemmas guard_inductive, guard_atomic, orient_only_one_mark, orient_atomic, mec_accepts_valid, "
-              "mec_rejects_invalid, wrappers_conform, guard_union as complete case analyses. Scope of the theorems: PAG, CPDAG, "
-              "AugmentedPAG, StationaryTimeSeriesCPDAG and histories without edge_type='all' insertions; "
-              "StationaryTimeSeriesPAG (unguarded) and 'all' are recorded known findings, reproduced by an as-is model. "
-              "The guard / orient / wrapper-shape / mec-selection parts of the model are translated from the Python source on "
-              "every run (a semantic change breaks the proof and extra() exhibits the failing cell as a replayed history); "
-              "the glue (pair map, op dispatch, bulk and constructor semantics) is observed by correspondence only.")
-LEVEL_NOTE = ("Theorems hold for the repaired bulk-add shape (fixes/C03-bulk-add-self-conflict.patch); on a tree without it "
-              "wrappers_conform does not compile and both the K tie and extra() exhibit add_edges_from([(0,1),(1,0)], 'directed'). "
-              "Time-series classes: contemporaneous nodes only (lagswap=false instance); lagged pairs are not tied. "
+              "has only valid pairs and is accepted by is_valid_mec_graph), c03_raise_atomic, c03_orient_one_mark, and -- for the "
+              "as-is machine WITH edge_type='all' insertions -- c03_all_breaks_only_validity (a pair is contradictory only if an "
+              "'all' insertion named it; is_valid_mec_graph stays exact; raising insertions/constructor leave the graph identical; "
+              "frame; atomic raise and one-mark of orient on every still-valid pair, contemporaneous and lagged), "
+              "c03_first_break_is_all, c03_all_insertion_breaks (which clauses), c03_all_reaches_every_pair_state and "
+              "c03_orient_nonatomic_on_contradictory (what does not survive). Finite lemmas (complete case analyses on the "
+              "generated tables): guard_inductive, guard_atomic, orient_only_one_mark, orient_atomic, orient_lag_reversed (lagged "
+              "pair, u later than v: StationaryTimeSeriesCPDAG orients forward in time = the call (v,u)), mec_accepts_valid, "
+              "mec_rejects_invalid, wrappers_conform, guard_union, tspag_asis_pinned. Scope: PAG, CPDAG, AugmentedPAG, "
+              "StationaryTimeSeriesCPDAG; StationaryTimeSeriesPAG (unguarded; pinned as-is) and 'all' are recorded known findings. "
+              "Guard / orient / wrapper-shape / mec-selection parts of the model are translated from the Python source on every "
+              "run; the glue (pair map, op dispatch, bulk and constructor semantics) is observed by correspondence only.")
+LEVEL_NOTE = ("On a tree without the bulk-add repair wrappers_conform does not compile and both the K tie and extra() exhibit "
+              "add_edges_from([(0,1),(1,0)], 'directed'). Known-finding classification is per pair and backed by "
+              "c03_pair_valid_unless_all / c03_first_break_is_all: a contradictory pair that no accepted 'all' insertion named (since "
+              "it was last valid) is reported even in histories containing 'all'. Lagged pairs: both lagswap instances of the "
+              "time-series orient functions are tied cell by cell on the pair states the layers can hold (marks from the earlier "
+              "to the later node only) and by exhaustive length<=3 histories on one lagged pair. "
               "Trusted: translator/guards.py (its output is cross-checked cell by cell through the extracted model).")
 
 
@@ -146,6 +154,17 @@ def gen_cases(tier, rng):
         seqs = list(itertools.product(al3, repeat=2))
         for seq in seqs[::step]:
             yield {"kind": "hist2n3", "cls": cls, "ops": list(seq)}
+    # time-series classes on a LAGGED pair: node 0 = (x0, -1) earlier, node 1 = (x1, 0) later.  The layers only accept marks
+    # given as (earlier, later), so insertions / removals name (0, 1); orient is called in both argument orders:
+    # Orient 0 1 (u earlier: lagswap=false) and OrientLag 1 0 (u later: the lagswap=true instance of the generated function)
+    for cls in (3, 4):
+        al = []
+        for et in et_codes(cls):
+            al += [[OP_ADD, 0, 1, et], [OP_REM, 0, 1, et], [OP_ADDS, [[0, 1]], et]]
+        al += [[OP_ORIENT, 0, 1], [OP_ORIENTLAG, 1, 0]]
+        for n in (1, 2, 3):
+            for seq in itertools.product(al, repeat=n):
+                yield {"kind": "lagged%d" % n, "cls": cls, "lags": [-1, 0], "ops": list(seq)}
     nr, ln = (60, 25) if tier == "quick" else (400, 200)
     for cls in range(5):
         for _ in range(nr):
@@ -181,9 +200,15 @@ def _classes():
 
 
 def node_maps(cls, case=None):
+    """time-series classes: node v is (label(v), lag) with lag 0, or case["lags"][v] for the lagged-pair histories"""
     lab, inv = gr.labeler(case)
     if TS[cls]:
-        return (lambda v: (lab(v), 0)), (lambda x: inv(x[0]))
+        lags = (case or {}).get("lags") or [0, 0, 0]
+        nd = lambda v: (lab(v), lags[v])  # noqa: E731
+        keep = {nd(v) for v in range(len(lags))}
+        inv2 = lambda x: inv(x[0])  # noqa: E731
+        inv2.keep = keep
+        return nd, inv2
     return lab, inv
 
 
@@ -209,8 +234,8 @@ def observe(G, cls, inv):
                 bits.add(k + ("f" if (a, b) == p else "r"))
             else:
                 bits.add(k)
-            if TS[cls] and (a[1] != 0 or b[1] != 0):
-                continue
+            if TS[cls] and (a not in inv.keep or b not in inv.keep):
+                continue                      # homologous copies of the compared edges
             x, y = inv(a), inv(b)
             if k in "BU":
                 x, y = min(x, y), max(x, y)
@@ -247,7 +272,7 @@ def apply_op(G, cls, nd, o):
         G.remove_edge(nd(o[1]), nd(o[2]), ET_NAMES[o[3]])
     elif k == OP_REMS:
         G.remove_edges_from([(nd(a), nd(b)) for a, b in o[1]], ET_NAMES[o[2]])
-    elif k == OP_ORIENT:
+    elif k in (OP_ORIENT, OP_ORIENTLAG):
         G.orient_uncertain_edge(nd(o[1]), nd(o[2]))
     elif k == OP_CTOR:
         return construct(cls, nd, o[1], o[2], o[3], o[4])
@@ -375,8 +400,43 @@ def real_tables():
             rows.append([code, int(not raises(is_valid_mec_graph, graph_in_state(cls, code, f)))])
         return rows
 
+    def orient_lag_table(cls):
+        """time-series classes on lagged pairs: cell (sw, d): the call is orient(cu, cv) with (cu, cv) = (0,1) for Fw, (1,0) for
+        Bw; sw=1: cu is LATER than cv (the sort by lag exchanges them: lagswap=true), sw=0: cu is earlier.  Pair states that
+        the layers refuse to hold on such a pair (any mark from the later to the earlier node) are not comparable: None"""
+        rows = []
+        for code in order:
+            cells = []
+            for sw in (0, 1):
+                for (cu, cv) in ((0, 1), (1, 0)):
+                    if code & ~class_mask(cls):
+                        cells.append(None)
+                        continue
+                    lag = {cu: 0 if sw else -1, cv: -1 if sw else 0}
+                    f = lambda v: (v, lag[v])  # noqa: E731
+                    G = _classes()[cls]()
+                    G.add_node(f(0))
+                    G.add_node(f(1))
+                    try:
+                        for i, (layer, a, b) in enumerate(BITS):
+                            if code >> i & 1:
+                                if layer in ("bidirected", "undirected") and lag[a] > lag[b]:
+                                    a, b = b, a
+                                G.get_graphs(layer).add_edge(f(a), f(b))
+                    except Exception:  # noqa
+                        cells.append(None)
+                        continue
+                    if pair_code(G, cls, f) != code:
+                        cells.append(None)
+                        continue
+                    r = raises(G.orient_uncertain_edge, f(cu), f(cv))
+                    cells.append([pair_code(G, cls, f), int(r)])
+            rows.append([code, cells])
+        return rows
+
     return {"guard_pag": guard_table(_check_adding_pag_edge, 0), "guard_cpdag": guard_table(_check_adding_cpdag_edge, 1),
-            "orient": [orient_table(c) for c in (0, 1, 3, 4)], "mec": [mec_table(c) for c in range(5)]}
+            "orient": [orient_table(c) for c in (0, 1, 3, 4)], "mec": [mec_table(c) for c in range(5)],
+            "orient_lag": [orient_lag_table(c) for c in (3, 4)]}
 
 
 def run_impl(case):
@@ -408,6 +468,19 @@ def compare_tables(impl, model):
                 # a raise before anything was touched is compared on the flag and the state; both must agree
                 if list(x) != list(y):
                     return "T:%s:state=%d:dir=%d" % (name, c1, j % 2)
+    nlag = 0
+    for k, name in enumerate(("orient_tspag", "orient_tscpdag")):
+        for (c1, cells1), (c2, cells2) in zip(impl["orient_lag"][k], t[4 + k]):
+            if c1 != c2:
+                return "T:table-order"
+            for j, (x, y) in enumerate(zip(cells1, cells2)):
+                if x is None:
+                    continue
+                n += 1
+                nlag += 1
+                if list(x) != list(y):
+                    return "T:%s:lagged-pair:state=%d:lagswap=%d:dir=%d" % (name, c1, j // 2, j % 2)
+    compare_tables.lag_cells = nlag
     for k in range(5):
         for (c1, x), (c2, y) in zip(impl["mec"][k], t[8][k]):
             if c1 != c2:
@@ -464,13 +537,40 @@ def classify(case, impl, model):
         return None
     if compare(case, impl, model) != "invariant-broken" or compare(case, impl, model, ignore_inv=True) is not None:
         return None
-    first = next(i for i, a in enumerate(impl["steps"]) if not a["inv"])
-    o = case["ops"][first]
-    if o[0] in (OP_ADD, OP_ADDS) and o[-1] == 4 and not impl["steps"][first]["raised"]:
-        return KEY_ALL
     if case["cls"] == 3:
         return KEY_TSPAG
-    return None
+    # KEY_ALL, per pair (Coq: c03_pair_valid_unless_all, c03_first_break_is_all): at EVERY step, every contradictory pair of
+    # the real graph must have been named by an accepted "all" insertion of the history so far.  A contradictory pair that
+    # no "all" insertion named is a different failure, even in a history that also contains "all" insertions.
+    named = set()
+    for a, o in zip(impl["steps"], case["ops"]):
+        if o[0] == OP_CTOR and not a["raised"]:
+            named = set()                                     # a new object
+        if o[0] in (OP_ADD, OP_ADDS) and o[-1] == 4 and not a["raised"]:
+            named |= {frozenset(e) for e in ([o[1:3]] if o[0] == OP_ADD else o[1])}
+        bad = contradictory_pairs(a, case["cls"])
+        if not bad <= named or (not a["inv"] and not bad):
+            return None
+        named &= bad        # a pair that is valid again (e.g. after removals) needs a fresh "all" insertion to break (step_pair)
+    return KEY_ALL
+
+
+def contradictory_pairs(step, cls):
+    """pairs of the observed real edge sets that violate the class invariant"""
+    marks = {}
+    for k in "DBUC":
+        for x, y in step[k]:
+            p = frozenset((x, y))
+            marks.setdefault(p, set()).add(k if k in "BU" else k + ("f" if x < y else "r"))
+    bad = set()
+    for p, bits in marks.items():
+        if PAG_LIKE[cls]:
+            if ("B" in bits and bits & {"Df", "Dr", "Cf", "Cr"}) or {"Df", "Dr"} <= bits or {"Df", "Cf"} <= bits \
+                    or {"Dr", "Cr"} <= bits:
+                bad.add(p)
+        elif ("U" in bits and bits & {"Df", "Dr"}) or {"Df", "Dr"} <= bits:
+            bad.add(p)
+    return bad
 
 
 def nontrivial(case, model):
@@ -636,4 +736,5 @@ def orient_one_mark(cls, before, after, swapped):
 
 def coverage_extra(ctx):
     return {"translator_cells_compared": getattr(compare_tables, "cells", 0),
+            "translator_lagged_orient_cells_compared": getattr(compare_tables, "lag_cells", 0),
             "generated_files_rewritten": ctx.get("gen_changed", [])}
